@@ -65,9 +65,9 @@ class ShortLinkControl(BitsInterface):
         ), f"Expected at least 36 bits (including 8-bit CRC), got {len(bits)}"
         slco: SLCOs = SLCOs.from_bits(bits[:4])
         if slco == SLCOs.NullMessage:
-            return ShortLinkControl(slco=slco, crc_8bit=bits[28:36])
+            slc = ShortLinkControl(slco=slco, crc_8bit=bits[28:36])
         elif slco == SLCOs.ActivityUpdate:
-            return ShortLinkControl(
+            slc = ShortLinkControl(
                 slco=slco,
                 crc_8bit=bits[28:36],
                 ts1_activity_id=ActivityID.from_bits(bits[4:8]),
@@ -75,8 +75,14 @@ class ShortLinkControl(BitsInterface):
                 ts1_address=bits[12:20],
                 ts2_address=bits[20:28],
             )
+        else:
+            raise KeyError(f"from_bits not implemented for {slco}")
 
-        raise KeyError(f"from_bits not implemented for {slco}")
+        if bits[28:36].any():
+            # a received CRC is checked on the received bits, not on re-serialised fields
+            # (undefined activity ids are folded and reserved bits are dropped by the constructor)
+            slc.crc_ok = CRC8.check(bits[:28], int(bits[28:36].to01()[::-1], 2))
+        return slc
 
     def as_bits(self) -> bitarray:
         if self.slco == SLCOs.NullMessage:
